@@ -75,7 +75,7 @@ func crashsimEngine() {
 	}
 	for hi := 0; hi < nHist; hi++ {
 		o := randOpts(rng)
-		o.NoGrowSync = false
+		o.NoGrowSync = hi%3 == 1 // without grow-sync the file is extended by the page writes themselves
 		if hi%4 == 3 {
 			o.InitialMmap = 0
 		}
@@ -283,8 +283,8 @@ var imgSeq int
 
 // checkImage runs checkImage1 under a deadline: a corrupt image may make bbolt loop forever.
 func checkImage(rep *Report, dir string, o optSet, ops []Op, c *commitRec, img []byte, desc string, metaPersisted bool, prefix int, leanDecode bool) {
-	if crashHangs >= 3 {
-		return // too many stuck goroutines already: stop exploring (the violations are recorded)
+	if crashHangs >= 3 || rep.NViolations >= 40 {
+		return // enough: stop exploring (the violations are recorded)
 	}
 	done := make(chan struct{})
 	go func() {
